@@ -11,7 +11,7 @@ for k in names:
     c = C[k]
     rep = verify_target(os.environ.get('VERIF_REPO', '/repo'), c['relpath'], c['qualname'], c, C, R, timeout_ms=30000)
     print('==', rep['fn'], rep['status'], rep.get('detail', ''), 'paths', rep.get('paths'), 'canary', rep.get('canary'), 'stmts', rep.get('stmts_modelled'), '/', rep.get('stmts_total'),
-          'obligations', len(rep['obligations']), f"{rep['wall_s']:.2f}s")
+          'obligations', len(rep['obligations']), 'dead-exits', rep.get('dead_exit_paths'), f"{rep['wall_s']:.2f}s")
     for u in rep['unsupported']:
         print('   UNSUPPORTED', u)
     for o in rep['obligations']:
